@@ -14,6 +14,7 @@ from typing import (
     Optional,
     Pattern,
     Sequence,
+    Set,
     Tuple,
     Type,
     TypeVar,
@@ -136,6 +137,7 @@ class SchemaBuilder(
         self._ignore_first_ref = ignore_first_ref
         self.ref_factory = ref_factory
         self.refs = refs
+        self._inlined: Set[Tuple[AnyType, Optional[AnyConversion]]] = set()
 
     def ref_schema(self, ref: Optional[str]) -> Optional[JsonSchema]:
         if ref not in self.refs:
@@ -474,7 +476,19 @@ class SchemaBuilder(
                     ),
                     schema,
                 )
-        result = super().visit_conversion(tp, conversion, dynamic, next_conversion)
+        if not is_hashable(tp):
+            result = super().visit_conversion(tp, conversion, dynamic, next_conversion)
+            return full_schema(result, schema)
+        key = (tp, self._conversion)
+        if key in self._inlined:
+            # A recursive type always has a reference, unless the refs extractor has
+            # dropped it because it contains an unsupported type
+            raise Unsupported(tp)
+        self._inlined.add(key)
+        try:
+            result = super().visit_conversion(tp, conversion, dynamic, next_conversion)
+        finally:
+            self._inlined.discard(key)
         return full_schema(result, schema)
 
     RefsExtractor: ClassVar[Type[RefsExtractor_]]
